@@ -279,6 +279,23 @@ def gen_C02(tier, seed):
         if i % 2:
             p.write(1, out_chunk=8192)
         progs.append(p.build())
+    # the target path already holds a file: a longer one / a shorter one written earlier by this process, or foreign bytes
+    for i in range(6 if tier == 'quick' else 24):
+        p = Prog(f'C02-samepath-{i}', {'kind': 'samepath'})
+        vrl = [256, 64, 8192][i % 3]
+        rows = [(30, 4), (2, 17), (5, 5)][i % 3]
+        for fid in (1, 2):
+            p.file(fid, vrl=vrl)
+            lf = p.lf(fid, lf=fid, fh_id=f'EXPORT-{fid}')
+            p.origin(lf, name='O')
+            c = p.channel(lf, 'DEPTH', data=np.arange(rows[fid - 1], dtype='float64') + 100 * fid)
+            p.frame(lf, 'FR', [c])
+            if fid == 2 or i >= 3:
+                nf = p.add(lf, 'no_format', 'NF')
+                p.nofmt(lf, nf, bytes(range(40 + i)))
+            p.write(fid, fname='export.dlis', out_chunk=[65536, 1000][i % 2], **({'prior': 333} if fid == 1 and i % 2 else {}))
+        p.write(1, fname='export.dlis', out_chunk=65536)
+        progs.append(p.build())
     return progs
 
 
@@ -478,6 +495,32 @@ def gen_C10(tier, seed):
                 opts['to'] = to
             p.write(1, route=route, data_arrays=arrs, fname=f'o{j}.dlis', **opts)
         progs.append(p.build())
+    # a write aborted in the middle of the record stream (a text payload that is not ASCII), the payload corrected, then the same
+    # specification written with the same and with other output chunk sizes, also by another DLISFile of the process
+    for i in range(6 if tier == 'quick' else 24):
+        vrl = [64, 256, 8192][i % 3]
+        p = Prog(f'C10-afterabort-{i}', {'kind': 'afterabort', 'vrl': vrl})
+        oc = [65536, 4096, 65536, 1000, 16384, 65536][i % 6]
+        for fid in ((1,) if i % 2 == 0 else (1, 2)):
+            p.file(fid, vrl=vrl)
+            lf = p.lf(fid, lf=fid, fh_id='ABORTED-THEN-RETRIED')
+            p.origin(lf, name='O')
+            c = p.channel(lf, 'CHANNEL-A', data=np.arange(5, dtype='float64'))
+            p.frame(lf, 'FRAME-A', [c])
+            nf = p.add(lf, 'no_format', 'NF', consumer_name=S('SOMEONE'))
+            p.nofmt(lf, nf, b'plain text, long enough to fill a visible record of sixty-four bytes', kind='str')
+            p.nofmt(lf, nf, 'caf\xe9 au lait' if fid == 1 else 'cafe au lait', kind='str')
+            if fid == 1:
+                p.write(1, out_chunk=oc, valid=False, either=True, fname='aborted.dlis')
+                if i % 2 == 0:
+                    p.nofmt_replace(2, 'cafe au lait', kind='str')
+        last = 1 if i % 2 == 0 else 2
+        p.write(last, out_chunk=oc, fname='retry.dlis', watch=True)
+        for j, o2 in enumerate([131072, 8192 if vrl <= 8192 else 16384, float(oc)]):
+            st = p.write(last, out_chunk=int(o2), fname=f'other{j}.dlis', watch=True)
+            if j == 2:
+                st['opts']['out_chunk_float'] = True
+        progs.append(p.build())
     progs += gen_multirec('C10', tier, rng)
     return progs
 
@@ -610,6 +653,34 @@ def gen_C06(tier, seed):
         p.frame(lf, 'FR', [c], set_name=nm)
         p.add(lf, 'zone', nm[:255], set_name=nm)
         p.write(1, valid=n <= 255, either=n > 255, mustraise='ident' if n > 255 else '')
+        progs.append(p.build())
+    # the codes of frame-data samples (USHORT ... FDOUBL): range edges of every dtype written under the code the CHANNEL object
+    # declares; the same channels written again with data of another dtype (every ordered pair over the eight dtypes in thorough)
+    dts = ['int8', 'int16', 'int32', 'uint8', 'uint16', 'uint32', 'float32', 'float64']
+    pairs = [(a, b) for a in dts for b in dts if a != b]
+    if tier == 'quick':
+        pairs = [pairs[k] for k in range(0, len(pairs), 4)] + [('float64', 'float32'), ('int32', 'uint16')]
+
+    def edge_values(dt, n=6):
+        if dt.startswith('float'):
+            fi = np.finfo(dt)
+            return np.array([0.0, -0.0, fi.max, fi.tiny, -1.5, 3.0], dtype=dt)[:n]
+        ii = np.iinfo(dt)
+        return np.array([ii.min, ii.max, 0, 1, ii.max - 1, ii.min + 1 if ii.min else 250], dtype=dt)[:n]
+    for i, (a, b) in enumerate(pairs):
+        p = Prog(f'C06-samplecodes-{a}-{b}', {'kind': 'samplecodes', 'first': a, 'second': b})
+        p.file(1, vrl=256)
+        lf = p.lf(1, fh_id='SAMPLE-CODES')
+        p.origin(lf, name='O')
+        d = p.channel(lf, 'DEPTH')
+        x = p.channel(lf, 'X')
+        k2 = p.channel(lf, 'K')
+        p.frame(lf, 'FR', [d, x, k2])
+        depth = p.array(np.arange(6, dtype='float64'))
+        p.write(1, route='dict', data_arrays={d: depth, x: p.array(edge_values(a)), k2: p.array(np.stack([edge_values(a), edge_values(a)], axis=1))}, fname='first.dlis')
+        p.write(1, route='dict', data_arrays={d: depth, x: p.array(edge_values(b)), k2: p.array(np.stack([edge_values(b), edge_values(b)], axis=1))}, fname='second.dlis')
+        if i % 3 == 0:
+            p.write(1, route='dict', data_arrays={d: depth, x: p.array(edge_values(a)), k2: p.array(np.stack([edge_values(a), edge_values(a)], axis=1))}, fname='third.dlis')
         progs.append(p.build())
     return progs
 
